@@ -172,6 +172,24 @@ theorem compat_omitted (tc : TC) (g : Guard) (v : JV) (h : compat tc g = true)
   cases tc <;> cases g <;> simp [compat] at h <;>
     simp_all [guard, zero, JV.isNull, JV.isEmptyStr, JV.isFalse, JV.isZeroNum, JV.isEmptyColl]
 
+theorem lookup_mem (k : String) (v : JV) : ∀ (o : Obj), lookup k o = some v → (k, v) ∈ o
+  | [], h => by simp [lookup] at h
+  | (k', v') :: r, h => by
+    simp only [lookup] at h
+    by_cases e : k = k'
+    · simp only [e, if_true, Option.some.injEq] at h; simp [e, h]
+    · simp only [e, if_false] at h; exact List.mem_cons_of_mem _ (lookup_mem k v r h)
+
+theorem find_field_of_nodup (f : Field) : ∀ (l : List Field), (l.map (·.key)).Nodup → f ∈ l →
+    l.find? (fun g => g.key == f.key) = some f
+  | [], _, h => by simp at h
+  | g :: l, hn, hm => by
+    simp only [List.map_cons, List.nodup_cons] at hn
+    rcases List.mem_cons.mp hm with e | hm'
+    · subst e; simp
+    · have : g.key ≠ f.key := fun e => hn.1 (e ▸ List.mem_map_of_mem hm')
+      simp [List.find?_cons, this, find_field_of_nodup f l hn.2 hm']
+
 /-! ### unpacking the decidable agreement -/
 
 structure WF (c : TC → Guard → Bool) (d : Desc) : Prop where
@@ -206,5 +224,16 @@ theorem wf_of_agree (c : TC → Guard → Bool) (d : Desc) (h : structAgreeWith 
     cases hf : fieldByGo d "Ref" with
     | none => simp [hf] at hrf
     | some f => simp [hf] at hrf; exact ⟨f, rfl, hrf.1, hrf.2⟩
+
+/-- keys written by the marshaller are deleted from the extension map -/
+theorem marsh_key_in_dels (c : TC → Guard → Bool) (d : Desc) (w : WF c d) (m : MField) (hm : m ∈ d.marsh) :
+    m.key ∈ d.dels := by
+  rw [w.dels]
+  have : m.key ∈ marshKeys d := List.mem_map_of_mem hm
+  rw [w.keysEq] at this
+  unfold expectedMarshKeys at this
+  split at this
+  · exact (List.mem_filter.mp this).1
+  · exact this
 
 end KinModel.Marshal
